@@ -15,10 +15,10 @@ import os
 
 from mc import domains as D
 from mc.engine import InputPart, Viol
-from mc.props.common import IT, PT, Textgrid, call, wellformed, scratch_dir
+from mc.props.common import IT, PT, Textgrid, call, wellformed, scratch_dir, fresh
 from praatio import textgrid as _tgmod
 
-FMTS = ("short_textgrid", "long_textgrid", "json", "textgrid_json")
+FMTS = fresh(("short_textgrid", "long_textgrid", "json", "textgrid_json"))
 
 
 def build(case_tg):
